@@ -135,6 +135,14 @@ func (u *sysUniverse) apply(a SysAct) *sysObs {
 		u.files[a.F-1].ImportAlias(a.P, a.N)
 	case "Anon":
 		u.files[a.F-1].Anon(a.P)
+	case "Header":
+		u.files[a.F-1].HeaderComment(a.N)
+	case "PkgComment":
+		u.files[a.F-1].PackageComment(a.N)
+	case "Preamble":
+		u.files[a.F-1].CgoPreamble(a.N)
+	case "Canonical":
+		u.files[a.F-1].CanonicalPath = a.P
 	case "Render":
 		f := u.files[a.F-1]
 		w := &recWriter{}
@@ -247,6 +255,10 @@ func ReplaySystem(tw *TraceWriter, id int, h []SysAct) {
 	}
 	contains := sysContains(h)
 	nobs := 0
+	fm := map[int]*Action{} // the front matter every File has been given so far (from the recorded calls)
+	for f := 1; f <= len(h[0].Files); f++ {
+		fm[f] = &Action{}
+	}
 	fresh := map[int]map[int]string{} // file -> action index -> status:hash, from a fresh process (sampled behaviours)
 	if id%5 == 0 {
 		for f := 1; f <= len(h[0].Files); f++ {
@@ -261,6 +273,19 @@ func ReplaySystem(tw *TraceWriter, id int, h []SysAct) {
 			refs = []int{}
 		}
 		rec := Rec{"ev": a.A, "f": a.F, "c": a.C, "d": a.D, "p": a.P, "n": a.N, "refs": refs}
+		switch a.A {
+		case "Header":
+			fm[a.F].Headers = append(fm[a.F].Headers, a.N)
+			rec["p"] = CommentNode(a.N).St
+		case "PkgComment":
+			fm[a.F].Comments = append(fm[a.F].Comments, a.N)
+			rec["p"] = CommentNode(a.N).St
+		case "Preamble":
+			fm[a.F].Preamble = append(fm[a.F].Preamble, a.N)
+			rec["p"] = CommentNode(a.N).St
+		case "Canonical":
+			fm[a.F].Canonical = a.P
+		}
 		if a.A == "Files" {
 			rec["trace"] = id
 			fs := []Rec{}
@@ -322,6 +347,26 @@ func ReplaySystem(tw *TraceWriter, id int, h []SysAct) {
 				rec["twin"] = rec["twin"].(bool) && ft[k] == o.status+":"+Hash(o.out)
 			}
 			if a.A == "Render" {
+				// C15 at file level and C19's placement of the preamble, measured on the output with go/parser (the same
+				// projections as in the File histories of the imports family)
+				rec["c15f"] = fileCommentFacts(renderResult{status: o.status, out: o.out}, *fm[a.F])
+				predoc := ""
+				for _, c := range fm[a.F].Preamble {
+					predoc += StripSpace(CommentText(c))
+				}
+				rec["predoc"] = predoc
+				rec["docsok"] = false
+				if o.status == "nil" {
+					if docs, ok := ImportDocs(o.out); ok {
+						rec["docsok"] = true
+						for i := range specs {
+							if specs[i].Decl-1 < len(docs) {
+								specs[i].Doc = docs[specs[i].Decl-1]
+							}
+						}
+						rec["specs"] = specs
+					}
+				}
 				rec["parses"] = o.status != "nil" || nf || ParsesAsFile(o.out)
 			} else {
 				rec["parses"] = o.status != "nil" || ParsesAsFragment(o.out)
@@ -464,7 +509,17 @@ func randomSystemHistory(r *rand.Rand, nops int) []SysAct {
 		nc := len(cells)
 		f := 1 + r.Intn(nfiles)
 		p := sysPaths[r.Intn(len(sysPaths))]
-		switch k := r.Intn(21); {
+		switch k := r.Intn(23); {
+		case k == 21:
+			// front matter, at any point of the behaviour (also between two renders of the File)
+			t := []string{"ca", "cb", "cc\ncd", "Package main does things.", "ce\n", "generated; do not edit"}[r.Intn(6)]
+			h = append(h, SysAct{A: []string{"Header", "PkgComment"}[r.Intn(2)], F: f, N: t})
+		case k == 22:
+			if r.Intn(2) == 0 {
+				h = append(h, SysAct{A: "Canonical", F: f, P: []string{"example.com/canon", "example.com/v2"}[r.Intn(2)]})
+			} else {
+				h = append(h, SysAct{A: "Preamble", F: f, N: []string{"#include <a.h>", "int f();\nint g();", "#cgo LDFLAGS: -lm"}[r.Intn(3)]})
+			}
 		case k < 2 || nc == 0:
 			switch r.Intn(4) {
 			case 3:
